@@ -21,6 +21,15 @@
 //!                        to 4 pending ops, else none/all + 14 sampled).
 //! Restart = `restore_persisted_snapshots` into a fresh `GraphStore` (mirrors main.rs).
 //!
+//! Rejected uploads (`upload_bad` events, 0–2 per history, anywhere in it): a well-formed export
+//! damaged the way uploads get damaged in practice (cut short, a flipped byte, not a snapshot
+//! at all, JSON cut mid-record inside an intact gzip, a relationship to a node the file does
+//! not contain, an unsupported version) is sent the same way.  Whether it *is* rejected is
+//! read off the answer, never assumed: 200 `"status":"ok"` = acknowledged import (treated like
+//! any other), everything else = not acknowledged.  A rejected upload is not an import: after
+//! it — clean restart, or a crash at any file-system call it made, under every reboot mode —
+//! the restored graph must still be the graph as of the acknowledged imports.
+//!
 //! Oracle: the restored graph (canonical dump, ids do not matter) must equal the live graph
 //! as of the last acknowledged import, or as of the in-flight one; after a clean restart it
 //! must equal the live graph.  Everything else is classified (nothing restored / only the
@@ -49,6 +58,7 @@ const DATA: &str = "/sim/data";
 const LABELS: [&str; 2] = ["A", "B"];
 const TYPES: [&str; 2] = ["T", "U"];
 const KEYS: [&str; 2] = ["k", "m"];
+const BAD_KINDS: [&str; 6] = ["truncate_bytes", "truncate_text", "dangling_edge", "garbage", "flip_byte", "bad_version"];
 
 // ------------------------------------------------------------------ snapshots
 
@@ -106,8 +116,18 @@ fn build_snapshot(ev: &Value, ordinal: u64) -> Vec<u8> {
             Some("n") => 1,
             _ => 2,
         };
-        // keep `"t":"n"` textually present: the importer looks for that substring
-        recs.push((kind, v["id"].as_u64().unwrap_or(0), serde_json::to_string(&v).unwrap()));
+        // Like the exporter, write the discriminator `"t"` first (the importer recognises a record
+        // by that prefix and only otherwise parses for a top-level `t`; a line it cannot classify
+        // is skipped, one it can classify but not parse is an error — damaged uploads should meet
+        // the same path as a damaged real export), the other keys sorted.
+        let id = v["id"].as_u64().unwrap_or(0);
+        let tag = v["t"].as_str().unwrap_or("").to_string();
+        if let Some(m) = v.as_object_mut() {
+            m.remove("t");
+        }
+        let rest = serde_json::to_string(&v).unwrap();
+        let line = if rest.len() > 2 { format!("{{\"t\":\"{tag}\",{}", &rest[1..]) } else { format!("{{\"t\":\"{tag}\"}}") };
+        recs.push((kind, id, line));
     }
     recs.sort();
     let mut enc = flate2::write::GzEncoder::new(Vec::new(), flate2::Compression::new(level));
@@ -118,6 +138,80 @@ fn build_snapshot(ev: &Value, ordinal: u64) -> Vec<u8> {
         enc.write_all(b"\n").unwrap();
     }
     enc.finish().unwrap()
+}
+
+fn gunzip(b: &[u8]) -> Vec<u8> {
+    let mut out = Vec::new();
+    flate2::read::GzDecoder::new(b).read_to_end(&mut out).expect("gunzip own export");
+    out
+}
+
+fn gzip(b: &[u8], level: u32) -> Vec<u8> {
+    let mut enc = flate2::write::GzEncoder::new(Vec::new(), flate2::Compression::new(level));
+    enc.write_all(b).unwrap();
+    enc.finish().unwrap()
+}
+
+/// Bytes of an `upload_bad` event: the well-formed export `good`, damaged.  A pure function of
+/// the event.  Nothing here decides that the server *must* reject the result — some damage is
+/// harmless (a flipped bit in the gzip header's mtime, JSON cut exactly at a line end) and the
+/// server may well accept it; the harness goes by the answer.
+fn mangle(good: &[u8], ev: &Value) -> Vec<u8> {
+    let at = u(ev, "at");
+    let level = (u(ev, "gz") % 10) as u32;
+    match s(ev, "kind") {
+        // connection dropped / client bug: a strict prefix of the file (possibly empty)
+        "truncate_bytes" => good[..(at as usize) % good.len().max(1)].to_vec(),
+        // one damaged byte
+        "flip_byte" => {
+            let mut b = good.to_vec();
+            if !b.is_empty() {
+                let i = (at as usize) % b.len();
+                b[i] ^= 1 + ((at >> 32) % 255) as u8;
+            }
+            b
+        }
+        // not a snapshot at all
+        "garbage" => {
+            let n = 1 + (at % 96) as usize;
+            let mut x = at | 1;
+            (0..n)
+                .map(|_| {
+                    x = x.wrapping_mul(6364136223846793005).wrapping_add(1442695040888963407);
+                    (x >> 56) as u8
+                })
+                .collect()
+        }
+        // exporter died mid-record, the gzip stream itself is intact
+        "truncate_text" => {
+            let text = gunzip(good);
+            gzip(&text[..(at as usize) % text.len().max(1)], level)
+        }
+        // intact file whose import fails part-way: a relationship to a node that is not in it,
+        // inserted after the header and `at % lines` further records
+        "dangling_edge" => {
+            let text = String::from_utf8_lossy(&gunzip(good)).to_string();
+            let mut lines: Vec<String> = text.lines().map(|l| l.to_string()).collect();
+            let first_node = lines.iter().skip(1).filter_map(|l| serde_json::from_str::<Value>(l).ok()).find(|v| v["t"] == "n").map(|v| v["id"].as_u64().unwrap_or(0)).unwrap_or(0);
+            let unknown = (1u64 << 40) + at % 1000;
+            let (src, tgt) = if at & 1 == 0 { (first_node, unknown) } else { (unknown, first_node) };
+            let pos = 1 + (at as usize >> 1) % lines.len().max(1);
+            lines.insert(pos.min(lines.len()), json!({"t":"e","id":(1u64 << 40),"src":src,"tgt":tgt,"type":TYPES[(at % 2) as usize],"props":{}}).to_string());
+            gzip((lines.join("\n") + "\n").as_bytes(), level)
+        }
+        // a file from a newer release
+        "bad_version" => {
+            let text = String::from_utf8_lossy(&gunzip(good)).to_string();
+            let mut lines: Vec<String> = text.lines().map(|l| l.to_string()).collect();
+            if let Some(h) = lines.first_mut() {
+                let mut v: Value = serde_json::from_str(h).unwrap_or(json!({}));
+                v["version"] = json!(3 + at % 5);
+                *h = v.to_string();
+            }
+            gzip((lines.join("\n") + "\n").as_bytes(), level)
+        }
+        _ => good.to_vec(),
+    }
 }
 
 fn canon_of(g: &GraphStore) -> String {
@@ -279,9 +373,30 @@ struct Known {
     /// canonical graph each acknowledged upload restores to *on its own*, oldest first
     alone: Vec<String>,
     empty: String,
+    /// bytes of every upload the server answered with an error (never acknowledged), plus the
+    /// in-flight one while its crash points are enumerated
+    rejected: Vec<Vec<u8>>,
 }
 
-fn classify(r: &Restored, allowed: &[&String], known: &Known, inflight_alone: Option<&String>) -> Option<(&'static str, String)> {
+/// Does the snapshot file a restart would read hold the bytes of a *rejected* upload?
+fn committed_is_rejected(fs: &SimFs, known: &Known) -> bool {
+    match fs.read_file(Path::new(&format!("{DATA}/snapshots/default.sgsnap"))) {
+        Some(b) => known.rejected.iter().any(|r| *r == b),
+        None => false,
+    }
+}
+
+fn classify(r: &Restored, allowed: &[&String], known: &Known, inflight_alone: Option<&String>, disk: &SimFs) -> Option<(&'static str, String)> {
+    let (class, detail) = classify_restored(r, allowed, known, inflight_alone)?;
+    // whatever the wrong restore looks like (error, nothing, garbage): if the file the restart
+    // read is an upload the server had *refused*, that is the defect to name
+    if committed_is_rejected(disk, known) {
+        return Some(("rejected_upload_replaced_committed_snapshot", format!("snapshots/default.sgsnap holds the bytes of an upload that was answered with an error (never acknowledged); {detail}")));
+    }
+    Some((class, detail))
+}
+
+fn classify_restored(r: &Restored, allowed: &[&String], known: &Known, inflight_alone: Option<&String>) -> Option<(&'static str, String)> {
     match r {
         Restored::Panic(m) => Some(("restore_panicked", format!("restore panicked: {m}"))),
         Restored::Error(e, left) => Some(("restore_error", format!("restore_persisted_snapshots failed: {e} (a snapshot that cannot be read was committed); the store it leaves behind: {}", left.replace('\n', " ")))),
@@ -290,10 +405,12 @@ fn classify(r: &Restored, allowed: &[&String], known: &Known, inflight_alone: Op
                 return None;
             }
             let n_acked = known.alone.len();
-            let class = if *c == known.empty {
-                "nothing_restored"
-            } else if known.alone.last() == Some(c) || inflight_alone == Some(c) {
+            // "only the last upload" comes first: an acknowledged upload may hold no nodes at all
+            // (a header-only file is a valid snapshot), and then restoring it alone restores nothing
+            let class = if known.alone.last() == Some(c) || inflight_alone == Some(c) {
                 "only_last_import_kept"
+            } else if *c == known.empty {
+                "nothing_restored"
             } else if known.states.iter().any(|s| s == c) {
                 "older_state"
             } else if known.alone.iter().any(|s| s == c) {
@@ -310,6 +427,9 @@ fn sig_for(when: &str, mode: &str, class: &str) -> String {
     if class == "only_last_import_kept" {
         // the disk mechanism worked; the *content* policy (one file, last upload only) loses data
         "C14/restart/only_last_import_kept".to_string()
+    } else if class == "rejected_upload_replaced_committed_snapshot" {
+        // same defect whether the restart is clean or follows a crash inside the rejected upload
+        "C14/restart/rejected_upload_replaced_committed_snapshot".to_string()
     } else if when == "clean_restart" {
         format!("C14/clean_restart/{class}")
     } else {
@@ -332,7 +452,7 @@ fn run_pass(case: &Case, pass: Pass, o: &Opts, cx: &mut Ctx) {
     disk.set_journal_mode(pass == Pass::Journal);
     let live: Arc<RwLock<GraphStore>> = Arc::new(RwLock::new(GraphStore::new()));
     let empty = canon_of(&GraphStore::new());
-    let mut known = Known { states: vec![empty.clone()], alone: vec![], empty };
+    let mut known = Known { states: vec![empty.clone()], alone: vec![], empty, rejected: vec![] };
     // snapshots whose import, in order, into an empty store gives the live store
     let mut recipe: Vec<Vec<u8>> = Vec::new();
     let mut ordinal = 0u64;
@@ -343,45 +463,97 @@ fn run_pass(case: &Case, pass: Pass, o: &Opts, cx: &mut Ctx) {
             break;
         }
         match op(ev) {
-            "import" => {
+            "import" | "upload_bad" => {
                 ordinal += 1;
-                let data = build_snapshot(ev, ordinal);
-                let alone_new = canon_of(&store_from(&[data.clone()]));
+                let bad = op(ev) == "upload_bad";
+                let data = if bad { mangle(&build_snapshot(ev, ordinal), ev) } else { build_snapshot(ev, ordinal) };
                 let canon_prev = known.states.last().unwrap().clone();
                 let pre = disk.fork();
-                // ---- the acknowledged, fault-free upload on the main disk
+                // ---- the fault-free upload on the main disk; the answer says whether it is acknowledged
                 disk.install();
                 disk.reset_ops();
-                if o.via_http {
+                let verdict: Result<(), String> = if o.via_http {
                     let (status, body) = http_upload(live.clone(), &data);
-                    if status != 200 || !body.contains("\"status\":\"ok\"") {
-                        cx.violate("C14/import/http/rejected_valid_snapshot".into(), format!("POST /api/snapshot/import answered {status} {body}"), step, json!({"phase":"base","pass":pass.name()}));
-                        cx.stop = true;
-                        break;
+                    if status == 200 && body.contains("\"status\":\"ok\"") {
+                        Ok(())
+                    } else {
+                        Err(format!("{status} {body}"))
                     }
                 } else {
-                    // restore_snapshot_handler (src/http/handler.rs 752-773): import into the live store, then persist
+                    // restore_snapshot_handler (src/http/handler.rs 752-773): import into the live store; only if that succeeded, persist
                     let mut g = live.try_write().expect("uncontended");
-                    if let Err(e) = import_into(&mut g, &data) {
-                        cx.violate("C14/import/rejected_valid_snapshot".into(), format!("import of an exported snapshot failed: {e}"), step, json!({"phase":"base","pass":pass.name()}));
-                        cx.stop = true;
-                        break;
+                    match import_into(&mut g, &data) {
+                        Err(e) => Err(e),
+                        Ok(()) => {
+                            if let Err(e) = persist_snapshot(DATA, &data) {
+                                cx.violate("C14/persist/error_on_healthy_disk".into(), format!("persist_snapshot failed: {e}"), step, json!({"phase":"base","pass":pass.name()}));
+                                cx.stop = true;
+                                break;
+                            }
+                            Ok(())
+                        }
                     }
-                    if let Err(e) = persist_snapshot(DATA, &data) {
-                        cx.violate("C14/persist/error_on_healthy_disk".into(), format!("persist_snapshot failed: {e}"), step, json!({"phase":"base","pass":pass.name()}));
-                        cx.stop = true;
-                        break;
-                    }
+                };
+                let acked = verdict.is_ok();
+                if let (false, Err(e)) = (bad, &verdict) {
+                    let sig = if o.via_http { "C14/import/http/rejected_valid_snapshot" } else { "C14/import/rejected_valid_snapshot" };
+                    cx.violate(sig.into(), format!("upload of an exported snapshot was refused: {e}"), step, json!({"phase":"base","pass":pass.name()}));
+                    cx.stop = true;
+                    break;
                 }
                 let ops: Vec<OpRec> = disk.ops();
-                if !ops.iter().any(|x| x.kind == "write") {
+                if acked && !ops.iter().any(|x| x.kind == "write") {
                     cx.violate("C14/persist/nothing_written".into(), format!("the upload was acknowledged but no snapshot bytes were written (ops: {})", ops.len()), step, json!({"phase":"base","pass":pass.name()}));
                     cx.stop = true;
                     break;
                 }
                 let canon_new = canon_of(&live.try_read().expect("uncontended"));
+                // what this upload restores to on its own (only an acknowledged one can be "the last import")
+                let alone_new: Option<String> = if acked { Some(canon_of(&store_from(&[data.clone()]))) } else { None };
                 cx.steps += 1;
                 cx.evals += 1;
+                if bad && acked {
+                    // harmless damage (e.g. a flipped bit in the gzip header): an import like any other
+                    cx.probe("damaged_upload_accepted");
+                    cx.probe(&format!("accepted.{}", s(ev, "kind")));
+                }
+                if !acked {
+                    cx.probe("rejected_upload");
+                    cx.probe(&format!("rejected.{}", s(ev, "kind")));
+                    if o.via_http {
+                        cx.probe("rejected_upload_via_http");
+                    }
+                    if !known.alone.is_empty() {
+                        cx.probe("rejected_after_acknowledged_import");
+                    }
+                    if !ops.is_empty() {
+                        cx.probe("rejected_upload_touched_disk");
+                    }
+                    if canon_new != canon_prev {
+                        // The refused upload changed the *live* graph.  C14 speaks about what a restart
+                        // restores, not about the live graph of a refused import (that is the import's
+                        // own all-or-nothing contract), and "the graph as of the acknowledged imports"
+                        // is no longer something the live store can tell us: end this history here.
+                        cx.probe("rejected_upload_changed_live_graph");
+                        SimFs::uninstall();
+                        break;
+                    }
+                    known.rejected.push(data.clone());
+                    // ---- clean restart right after the refusal: still the acknowledged imports
+                    if o.do_clean {
+                        let d = disk.fork();
+                        d.reboot(Reboot::ProcessCrash, &[]);
+                        let r = cx.restart_memo(&d);
+                        cx.evals += 1;
+                        cx.steps += 1;
+                        cx.probe("restart_after_rejected_upload");
+                        if let Some((class, detail)) = classify(&r, &[&canon_prev], &known, None, &d) {
+                            let pin = json!({"phase":"clean","pass":pass.name(),"event":step});
+                            cx.violate(sig_for("clean_restart", "clean", class), format!("upload #{ordinal} ({}) was answered with an error ({}); clean restart: {detail}; expected the graph as of the acknowledged imports {}", s(ev, "kind"), verdict.as_ref().err().map(|e| e.replace('\n', " ")).unwrap_or_default(), canon_prev.replace('\n', " ")), step, pin);
+                        }
+                        disk.install();
+                    }
+                }
 
                 // ---- crash enumeration on forks of the pre-upload disk
                 if o.do_crash {
@@ -397,11 +569,16 @@ fn run_pass(case: &Case, pass: Pass, o: &Opts, cx: &mut Ctx) {
                             let fired = if o.via_http {
                                 let throwaway = Arc::new(RwLock::new(store_from(&recipe)));
                                 run_process(|| http_upload(throwaway, &data)).is_err()
-                            } else {
+                            } else if acked {
                                 run_process(|| persist_snapshot(DATA, &data)).is_err()
+                            } else {
+                                // the import failed: the handler's error branch never reaches persist_snapshot
+                                false
                             };
-                            if fired {
+                            if fired && acked {
                                 cx.probe("crash_inside_persist");
+                            } else if fired {
+                                cx.probe("crash_inside_rejected_upload");
                             }
                             for (k, v) in d.faults_fired() {
                                 *cx.faults.entry(k).or_insert(0) += v;
@@ -442,7 +619,7 @@ fn run_pass(case: &Case, pass: Pass, o: &Opts, cx: &mut Ctx) {
                                     let r = cx.restart_memo(&d2);
                                     cx.evals += 1;
                                     cx.steps += 1;
-                                    if let Restored::Graph(c) = &r {
+                                    if let (true, Restored::Graph(c)) = (acked, &r) {
                                         if *c == canon_new && fired {
                                             cx.probe("crashed_upload_survives");
                                         } else if *c == canon_prev && fired {
@@ -450,7 +627,7 @@ fn run_pass(case: &Case, pass: Pass, o: &Opts, cx: &mut Ctx) {
                                         }
                                     }
                                     // ---- the server must be able to take the next upload after this crash
-                                    if *mode == "process_crash" && fired {
+                                    if *mode == "process_crash" && fired && acked {
                                         // once per (crashed call, shape of the directory): which files exist and whether they are empty
                                         let listing: Vec<(String, bool)> = d2.files().iter().map(|(p, l)| (p.to_string_lossy().to_string(), *l == 0)).collect();
                                         if followed.insert(hash_str(&format!("{step}/{}/{listing:?}", cp.op))) {
@@ -484,10 +661,14 @@ fn run_pass(case: &Case, pass: Pass, o: &Opts, cx: &mut Ctx) {
                                             }
                                         }
                                     }
-                                    if let Some((class, detail)) = classify(&r, &[&canon_prev, &canon_new], &known, Some(&alone_new)) {
+                                    // acknowledged upload in flight: previous or new state; an upload the server goes on
+                                    // to refuse has no "new" state: previous only
+                                    let allowed: Vec<&String> = if acked { vec![&canon_prev, &canon_new] } else { vec![&canon_prev] };
+                                    if let Some((class, detail)) = classify(&r, &allowed, &known, alone_new.as_ref(), &d2) {
                                         let pin = json!({"phase":"crash","pass":pass.name(),"event":step,"op":cp.op,"partial":cp.partial,"mode":mode,"choices":choices});
                                         let d = format!(
-                                            "upload #{ordinal} killed {} [{mode}{}]: {detail}; files after reboot: {:?}",
+                                            "upload #{ordinal}{} killed {} [{mode}{}]: {detail}; files after reboot: {:?}",
+                                            if acked { String::new() } else { format!(" ({}, answered with an error when not killed)", s(ev, "kind")) },
                                             describe(&ops, &cp),
                                             if report.is_empty() { String::new() } else { format!("; lost: {}", report.join(", ")) },
                                             d2.files().iter().map(|(p, l)| format!("{}({l})", p.file_name().map(|x| x.to_string_lossy().to_string()).unwrap_or_default())).collect::<Vec<_>>()
@@ -500,9 +681,11 @@ fn run_pass(case: &Case, pass: Pass, o: &Opts, cx: &mut Ctx) {
                     }
                 }
                 // ---- acknowledged
-                known.states.push(canon_new);
-                known.alone.push(alone_new);
-                recipe.push(data);
+                if let Some(alone) = alone_new {
+                    known.states.push(canon_new);
+                    known.alone.push(alone);
+                    recipe.push(data);
+                }
                 SimFs::uninstall();
             }
             "restart" => {
@@ -513,7 +696,7 @@ fn run_pass(case: &Case, pass: Pass, o: &Opts, cx: &mut Ctx) {
                 cx.steps += 1;
                 let cur = known.states.last().unwrap().clone();
                 if o.do_clean {
-                    if let Some((class, detail)) = classify(&r, &[&cur], &known, None) {
+                    if let Some((class, detail)) = classify(&r, &[&cur], &known, None, &disk) {
                         let pin = json!({"phase":"clean","pass":pass.name(),"event":step});
                         cx.violate(sig_for("clean_restart", "clean", class), format!("clean restart: {detail}; expected the live graph {}", cur.replace('\n', " ")), step, pin);
                     }
@@ -584,7 +767,7 @@ impl Scenario for C14 {
         }
     }
     fn rule(&self) -> &'static str {
-        "history = 1..3 import events (generated graph of 1-4 nodes / 0-3 relationships, 2 labels, 2 types, small values, exported at gzip level 0/1/3/6/9 by the real exporter) with clean restart events between them (p=1/3 each gap) and an implicit final clean restart; upload = import_tenant_with_dedup + persist_snapshot directly or (knob via_http, 1/3 of the runs) a multipart POST through HttpServer::router(); each case runs twice (journalling file system / bare POSIX) and per import enumerates every crash point of persist_snapshot (before each FS call, every torn offset of the write under process_crash, sampled torn offsets under power loss, and after the last call) x {process_crash, power_loss_journal: every surviving prefix of uncommitted namespace ops, power_loss_posix: every subset up to 4 pending ops else none/all/14 sampled} x {none / all / a sampled part of unsynced file data}; after every distinct process-crash state the restarted server takes one more upload and restarts again. Non-trivial = at least 2 imports, or 1 import whose graph has a relationship. Distinct = hash of (event kinds, node/edge counts, gzip level, via_http)."
+        "history = 1..3 import events (generated graph of 1-4 nodes / 0-3 relationships, 2 labels, 2 types, small values, exported at gzip level 0/1/3/6/9 by the real exporter) with clean restart events between them (p=1/3 each gap) and an implicit final clean restart, plus 0-2 damaged uploads (upload_bad, half of the runs: file cut short / JSON cut inside an intact gzip / relationship to a node not in the file / random bytes / one flipped byte / unsupported version) inserted anywhere; an upload answered with anything but 200 status ok is not acknowledged and must leave every later restart (clean restart right after it, and a kill at every file-system call it made, all reboot modes) at the graph as of the acknowledged imports; upload = import_tenant_with_dedup + persist_snapshot directly or (knob via_http, 1/3 of the runs without and 2/3 of the runs with a damaged upload) a multipart POST through HttpServer::router(); each case runs twice (journalling file system / bare POSIX) and per import enumerates every crash point of persist_snapshot (before each FS call, every torn offset of the write under process_crash, sampled torn offsets under power loss, and after the last call) x {process_crash, power_loss_journal: every surviving prefix of uncommitted namespace ops, power_loss_posix: every subset up to 4 pending ops else none/all/14 sampled} x {none / all / a sampled part of unsynced file data}; after every distinct process-crash state the restarted server takes one more upload and restarts again. Non-trivial = at least 2 imports, or 1 import whose graph has a relationship. Distinct = hash of (event kinds incl. kind of damage, node/edge counts, gzip level, via_http)."
     }
     fn real_components(&self) -> Vec<&'static str> {
         vec![
@@ -612,7 +795,7 @@ impl Scenario for C14 {
         ]
     }
     fn required_probes(&self, _tier: Tier) -> Vec<&'static str> {
-        vec!["crash_inside_persist", "followup_upload_after_crash", "crashed_upload_survives", "crashed_upload_rolled_back", "restart_after_several_imports", "crash.torn_write", "power_loss.ns_op_lost", "via_http_runs"]
+        vec!["crash_inside_persist", "followup_upload_after_crash", "crashed_upload_survives", "crashed_upload_rolled_back", "restart_after_several_imports", "crash.torn_write", "power_loss.ns_op_lost", "via_http_runs", "rejected_upload_via_http", "rejected_after_acknowledged_import", "restart_after_rejected_upload", "rejected.truncate_bytes", "rejected.truncate_text", "rejected.dangling_edge", "rejected.garbage"]
     }
     fn generate(&self, s: &mut Streams, _run_index: u64, tier: Tier) -> Case {
         let mut case = Case::new("C14");
@@ -626,6 +809,21 @@ impl Scenario for C14 {
                 case.events.push(json!({"op":"restart"}));
             }
         }
+        // uploads the server should refuse, anywhere in the history (also first and last); drawn
+        // after the imports so that the acknowledged part of a run is what it was without them
+        let n_bad = s.workload.weighted(&[5, 4, 1]);
+        for _ in 0..n_bad {
+            let mut ev = gen_graph(&mut s.workload);
+            ev["op"] = json!("upload_bad");
+            ev["kind"] = json!(BAD_KINDS[s.workload.weighted(&[4, 3, 3, 2, 2, 1])]);
+            ev["at"] = json!(s.workload.next_u64() >> 1);
+            let pos = s.workload.usize_below(case.events.len() + 1);
+            case.events.insert(pos, ev);
+        }
+        // the order "import, then persist" is the handler's own only behind the router
+        if n_bad > 0 && !case.knob_bool("via_http", false) && s.knobs.chance(1, 2) {
+            case.knobs.insert("via_http".into(), json!(true));
+        }
         case
     }
     fn shrink_event(&self, ev: &Value) -> Vec<Value> {
@@ -635,6 +833,14 @@ impl Scenario for C14 {
                 e["edges"] = json!([]);
                 e
             }],
+            "upload_bad" => {
+                let mut small = json!({"op":"upload_bad","nodes":[{"l":[0],"p":{}}],"edges":[],"gz":0});
+                small["kind"] = ev["kind"].clone();
+                small["at"] = ev["at"].clone();
+                let mut no_edges = ev.clone();
+                no_edges["edges"] = json!([]);
+                vec![small, no_edges]
+            }
             _ => vec![],
         }
     }
@@ -673,7 +879,7 @@ impl Scenario for C14 {
         out.violations = cx.vios;
         let imports: Vec<&Value> = case.events.iter().filter(|e| op(e) == "import").collect();
         out.nontrivial = imports.len() >= 2 || imports.iter().any(|e| e["edges"].as_array().map(|a| !a.is_empty()).unwrap_or(false));
-        let key: Vec<String> = case.events.iter().map(|e| format!("{}:{}:{}:{}", op(e), e["nodes"].as_array().map(|a| a.len()).unwrap_or(0), e["edges"].as_array().map(|a| a.len()).unwrap_or(0), u(e, "gz"))).collect();
+        let key: Vec<String> = case.events.iter().map(|e| format!("{}{}:{}:{}:{}", op(e), s(e, "kind"), e["nodes"].as_array().map(|a| a.len()).unwrap_or(0), e["edges"].as_array().map(|a| a.len()).unwrap_or(0), u(e, "gz"))).collect();
         out.class_key = hash_str(&format!("{}|{via_http}", key.join(",")));
         // final observable state: what a restart of the fault-free history restores (both passes agree)
         let mut h = String::new();
